@@ -194,7 +194,7 @@ PROPS = {
         shards={"quick": 8, "thorough": 16},
     ),
     "C12": dict(
-        pkg=".", test="TestVerifC12", model="C12", verdict="C12v", level="proof", diff_is_failure=False, also=["C12r"],
+        pkg=".", test="TestVerifC12", model="C12", verdict="C12v", level="proof", diff_is_failure=False, also=["C12r", "C11"],
         rule="a case is a history of identification-completed / protocols-updated events (protocol and routing-table filter set per "
              "peer), admission-probe outcomes (answer, empty answer, failure) and whole lookups with scripted per-peer outcomes "
              "(answer naming other peers, request failure, dial failure) and an optional cancellation after k outcomes, on a real "
